@@ -441,6 +441,9 @@ class _ScopeContext:
                 while (sent := (yield f)) is not None:
                     subrecurse = sent
 
+                if not (a := f.a):  # has been deleted by the player (if replaced then this FST node will still exist but the .a will have changed)
+                    continue
+
                 if subrecurse and check_all_param(f := a.ctx.f):  # truly pedantic, but maybe the user really really really wants that .ctx?
                     while (yield f) is not None:  # eat all the user's send()s
                         pass
